@@ -26,6 +26,8 @@ CONSTANTS
   AllowRepeat = TRUE
   CancelIdempotent = FALSE
   RelayCancelIdempotent = TRUE
+  SubsBeforeAccept = TRUE
+  MaxAcc = 0
 INVARIANT TypeOK
 INVARIANT P_C05_WireTruth
 INVARIANT P_C05_ListPeers
